@@ -3,8 +3,8 @@ CONSTANTS
   Maturity = 3
   Slates = {"s1", "s2"}
   Amounts = {1000}
-  NFund = 2
-  MaxH = 6
+  NFund = 1
+  MaxH = 7
   MaxLog = 2
   UseLate = FALSE
   UseTtl = FALSE
@@ -13,26 +13,30 @@ CONSTANTS
   UseMineTo = FALSE
   UseCancelBySlate = FALSE
   MaxAdv = 1
-  MaxFork = 0
-  UseScan = FALSE
-  UseAccounts2 = TRUE
-  UseSelf = FALSE
+  MaxFork = 1
+  UseScan = TRUE
+  UseAccounts2 = FALSE
+  UseSelf = TRUE
   FundAcct2 = FALSE
   UseBuild = FALSE
   NChanges = {1}
-  QuietW2 = FALSE
+  QuietW2 = TRUE
   UseDiverge = FALSE
   UseAdv = FALSE
 SPECIFICATION Spec
 INVARIANT TypeOK
 INVARIANT Inv_Exclusive
-INVARIANT Inv_Held
 PROPERTY Prop_Replay
 PROPERTY Prop_SelectAvoidsReserved
 PROPERTY Prop_Cancel
 PROPERTY Prop_Foreign
 PROPERTY Prop_Paths
 PROPERTY Prop_Ttl
+PROPERTY Prop_Books
+PROPERTY Prop_Isolation
+PROPERTY Prop_Scan
+PROPERTY Prop_NoReverted
+PROPERTY Prop_RevertedRestored
 PROPERTY EmitEdges
 CONSTRAINT Bound
 VIEW View
